@@ -167,7 +167,7 @@ class VUnit:
         it.canary_name = cname
         it.impl = impl
         self.items.append(it)
-        self.parts.append(('fn', main, can_decl + can, {'item': it}))
+        self.parts.append(('fn', main, can_decl + can, {'item': it, 'ext_decl': can_decl, 'external': external_body}))
         return self
 
     @staticmethod
@@ -185,7 +185,7 @@ class VUnit:
         return sig[:m.start()] + '-> (%s: %s)' % (name, rt) + ('\n' + sig[end:] if mw else '')
 
     # ---- generation
-    def generate(self):
+    def generate(self, demote=()):
         head = '// GENERATED by /verif/lib/vunit.py from %s working tree; do not edit\n' % REPO
         main, can = [head], [head]
         linemap = []  # (first_line, last_line, meta)
@@ -193,6 +193,8 @@ class VUnit:
         canmap = []
         ccl = cline
         for kind, tm, tc, meta in self.parts:
+            if kind == 'fn' and meta['item'].emit_name in demote and meta['item'].file + '::' + meta['item'].emit_name in demote[meta['item'].emit_name]:
+                tm = meta['ext_decl']
             n = tm.count('\n') + 1
             linemap.append((cline, cline + n - 1, kind, meta))
             main.append(tm + '\n')
@@ -265,31 +267,58 @@ def check_unit(unit_builder, name, tier='quick'):
            'status': 'undecided', 'failures': [], 'obligations': 0, 'discharged': 0, 'functions': [], 'rules': [],
            'trusted': [], 'solver_s': 0.0, 'wall_s': 0.0, 'notes': [], 'samples': []}
     t0 = time.time()
-    try:
-        u = unit_builder()
-        main, can, linemap, canmap = u.generate()
-    except rsx.ExtractError as e:
-        res['notes'].append('EXTRACTION FAILURE (tooling, not a violation): %s' % e)
-        res['wall_s'] = time.time() - t0
-        return res
-    mp = os.path.join(BUILD, 'verus', name.replace('-', '_').lower() + '.rs')
-    cp = os.path.join(BUILD, 'verus', name.replace('-', '_').lower() + '_canary.rs')
-    open(mp, 'w').write(main)
-    open(cp, 'w').write(can)
-    res['generated'] = mp
-    res['trusted'] = list(u.trusted)
-    for it in u.items:
-        if it.kind == 'fn':
-            res['functions'].append('%s:%d %s%s%s' % (it.file, it.line, (it.impl + '::') if getattr(it, 'impl', None) else '', it.name,
-                                                     ' [external_body: contract assumed]' if it.contract.get('external_body') else ''))
-            if it.rules:
-                res['rules'].append('%s::%s: %s' % (it.file, it.name, ', '.join(it.rules)))
-    # run main and canary concurrently
-    import concurrent.futures as cf
-    with cf.ThreadPoolExecutor(2) as ex:
-        fm = ex.submit(run_verus, mp)
-        fc = ex.submit(run_verus, cp)
-        rm, rc_ = fm.result(), fc.result()
+    demoted = {}
+    attempt = 0
+    while True:
+        attempt += 1
+        try:
+            u = unit_builder()
+            main, can, linemap, canmap = u.generate(demoted)
+        except rsx.ExtractError as e:
+            res['notes'].append('EXTRACTION FAILURE (tooling, not a violation): %s' % e)
+            res['wall_s'] = time.time() - t0
+            return res
+        mp = os.path.join(BUILD, 'verus', name.replace('-', '_').lower() + '.rs')
+        cp = os.path.join(BUILD, 'verus', name.replace('-', '_').lower() + '_canary.rs')
+        os.makedirs(os.path.dirname(mp), exist_ok=True)
+        open(mp, 'w').write(main)
+        open(cp, 'w').write(can)
+        res['generated'] = mp
+        res['trusted'] = list(u.trusted)
+        res['functions'] = []
+        res['rules'] = []
+        for it in u.items:
+            if it.kind == 'fn':
+                dem = it.emit_name in demoted
+                res['functions'].append('%s:%d %s%s%s%s' % (it.file, it.line, (it.impl + '::') if getattr(it, 'impl', None) else '', it.name,
+                                                         ' [external_body: contract assumed]' if it.contract.get('external_body') else '',
+                                                         ' [NOT VERIFIED IN THIS RUN: body uses a construct outside the extraction rules]' if dem else ''))
+                if it.rules:
+                    res['rules'].append('%s::%s: %s' % (it.file, it.name, ', '.join(it.rules)))
+        # run main and canary concurrently
+        import concurrent.futures as cf
+        with cf.ThreadPoolExecutor(2) as ex:
+            fm = ex.submit(run_verus, mp)
+            fc = ex.submit(run_verus, cp)
+            rm, rc_ = fm.result(), fc.result()
+        # a front-end error inside ONE extracted function must not hide violations in the others: demote that function to its
+        # contract (external_body) and run again; the unit then ends undecided unless another obligation fails
+        js0 = rm['json']
+        errs0 = [e for e in parse_errors(rm['stderr'], mp) if e['level'] == 'error' and not e['msg'].startswith('aborting due to')]
+        fe = [e for e in errs0 if (e['code'] or not VERIF_ERR.search(e['msg'])) and not (RLIMIT_ERR.search(e['msg']))]
+        newly = False
+        if fe and attempt <= 4 and js0 is not None:
+            for e in fe:
+                for a, b, kind, meta in linemap:
+                    if e['line'] is not None and a <= e['line'] <= b and kind == 'fn' and not meta.get('external'):
+                        it = meta['item']
+                        key = it.file + '::' + it.emit_name
+                        if key not in demoted.get(it.emit_name, set()):
+                            demoted.setdefault(it.emit_name, set()).add(key)
+                            res['notes'].append('front-end error in %s::%s (%s): function demoted to its contract for this run (NOT verified)' % (it.file, it.emit_name, e['msg'][:160]))
+                            newly = True
+        if not newly:
+            break
     res['checker_cmd'] = rm['cmd']
     res['verifier_output'] = rm['stderr'][-20000:]
     js = rm['json']
@@ -381,6 +410,8 @@ def check_unit(unit_builder, name, tier='quick'):
         res['notes'].append('not all obligations discharged (rlimit or unattributed error): undecided')
     elif res['obligations'] == 0:
         res['notes'].append('zero obligations generated: void')
+    elif demoted:
+        res['notes'].append('some functions could not be verified in this run (see above): undecided')
     else:
         res['status'] = 'ok'
     res['wall_s'] = time.time() - t0
